@@ -11,7 +11,10 @@
  * Script lines (see docs/notes/DTD.md):
  *   case <k> D=<ndata> W=<window|def> T=<threshold|def> R=<ranks>   start a case (def = leave the runtime default;
  *                                                          R must be the number of MPI ranks of this run)
- *   t <tid> <rN|aJ> b<body> [d:M ...]                      task inserted by the main thread; M in R W RW;
+ *   t <tid> <rN|aJ> b<body> [d:M ...]                      task inserted by the main thread; M in R W RW; a body id >= 100 means
+ *                                                          "insert through the task-class API" (parsec_dtd_create_task_class +
+ *                                                          parsec_dtd_task_class_add_chore + parsec_dtd_insert_task_with_task_class:
+ *                                                          the parsec_dtd_cpu_task_submit path, the one that bumps data-copy versions)
  *                                                          rN = value affinity rank N, aJ = AFFINITY flag on argument J
  *   c <parent> <tid> <rN|aJ> b<body> [d:M ...]             task inserted by the body of task <parent>
  *   wait                                                   parsec_taskpool_wait
@@ -147,11 +150,54 @@ BODYK(0) BODYK(1) BODYK(2) BODYK(3) BODYK(4) BODYK(5) BODYK(6)
 static parsec_dtd_funcptr_t *bodies[MAXA + 1] = { body0, body1, body2, body3, body4, body5, body6 };
 
 static int opflag(int m) { return m == M_R ? PARSEC_INPUT : m == M_W ? PARSEC_OUTPUT : PARSEC_INOUT; }
+
+/* task classes (one per mode signature), created by the main thread before the insertions start (the DTD contract wants task-class
+ * creation serialized); at most MAXTC per taskpool, further signatures fall back to parsec_dtd_insert_task */
+#define MAXTC 14
+static struct { int sig; parsec_task_class_t *tc; } TC[MAXTC];
+static int NTC;
+static int sig_of(const tk_t *t) { int s = 1; for (int j = 0; j < t->na; j++) s = s * 4 + t->m[j]; return s; }
+static parsec_task_class_t *find_tc(const tk_t *t) { int s = sig_of(t); for (int i = 0; i < NTC; i++) if (TC[i].sig == s) return TC[i].tc; return NULL; }
+#define CARG(j) PASSED_BY_REF, (opflag(t->m[j]) | TILE_FULL)
+static void make_tc(const tk_t *t) {
+    if (find_tc(t) || NTC >= MAXTC) return;
+    parsec_task_class_t *tc = NULL;
+#define CHEAD tp, "TC", sizeof(int), PARSEC_VALUE, sizeof(int), PARSEC_VALUE
+    switch (t->na) {
+    case 0: tc = parsec_dtd_create_task_class(CHEAD, PARSEC_DTD_ARG_END); break;
+    case 1: tc = parsec_dtd_create_task_class(CHEAD, CARG(0), PARSEC_DTD_ARG_END); break;
+    case 2: tc = parsec_dtd_create_task_class(CHEAD, CARG(0), CARG(1), PARSEC_DTD_ARG_END); break;
+    case 3: tc = parsec_dtd_create_task_class(CHEAD, CARG(0), CARG(1), CARG(2), PARSEC_DTD_ARG_END); break;
+    case 4: tc = parsec_dtd_create_task_class(CHEAD, CARG(0), CARG(1), CARG(2), CARG(3), PARSEC_DTD_ARG_END); break;
+    case 5: tc = parsec_dtd_create_task_class(CHEAD, CARG(0), CARG(1), CARG(2), CARG(3), CARG(4), PARSEC_DTD_ARG_END); break;
+    case 6: tc = parsec_dtd_create_task_class(CHEAD, CARG(0), CARG(1), CARG(2), CARG(3), CARG(4), CARG(5), PARSEC_DTD_ARG_END); break;
+    }
+    if (!tc) return;
+    parsec_dtd_task_class_add_chore(tp, tc, PARSEC_DEV_CPU, body);
+    TC[NTC].sig = sig_of(t); TC[NTC].tc = tc; NTC++;
+}
 #define ARG(j) PASSED_BY_REF, tiles[t->d[j]], (opflag(t->m[j]) | TILE_FULL | (t->aff_arg == (j) ? PARSEC_AFFINITY : 0))
 static void insert_task(int tid) {
     tk_t *t = &T[tid];
     int rk = t->aff_rank;
     int rflag = PARSEC_VALUE | (t->aff_arg < 0 ? PARSEC_AFFINITY : 0);
+    parsec_task_class_t *tc = t->body >= 100 ? find_tc(t) : NULL;
+    if (tc) {
+        int aflag = t->aff_arg < 0 ? PARSEC_AFFINITY : PARSEC_DTD_EMPTY_FLAG;
+#define TARG(j) (t->aff_arg == (j) ? PARSEC_AFFINITY : PARSEC_DTD_EMPTY_FLAG), tiles[t->d[j]]
+#define THEAD tp, tc, 0, PARSEC_DEV_CPU, PARSEC_DTD_EMPTY_FLAG, &tid, aflag, &rk
+        switch (t->na) {
+        case 0: parsec_dtd_insert_task_with_task_class(THEAD, PARSEC_DTD_ARG_END); break;
+        case 1: parsec_dtd_insert_task_with_task_class(THEAD, TARG(0), PARSEC_DTD_ARG_END); break;
+        case 2: parsec_dtd_insert_task_with_task_class(THEAD, TARG(0), TARG(1), PARSEC_DTD_ARG_END); break;
+        case 3: parsec_dtd_insert_task_with_task_class(THEAD, TARG(0), TARG(1), TARG(2), PARSEC_DTD_ARG_END); break;
+        case 4: parsec_dtd_insert_task_with_task_class(THEAD, TARG(0), TARG(1), TARG(2), TARG(3), PARSEC_DTD_ARG_END); break;
+        case 5: parsec_dtd_insert_task_with_task_class(THEAD, TARG(0), TARG(1), TARG(2), TARG(3), TARG(4), PARSEC_DTD_ARG_END); break;
+        case 6: parsec_dtd_insert_task_with_task_class(THEAD, TARG(0), TARG(1), TARG(2), TARG(3), TARG(4), TARG(5), PARSEC_DTD_ARG_END); break;
+        }
+        patch_classes();
+        return;
+    }
 #define HEAD tp, bodies[t->na], 0, PARSEC_DEV_CPU, "T", sizeof(int), &tid, PARSEC_VALUE, sizeof(int), &rk, rflag
     switch (t->na) {
     case 0: parsec_dtd_insert_task(HEAD, PARSEC_DTD_ARG_END); break;
@@ -217,6 +263,9 @@ static void run_case(void) {
     if (barrier_mode >= 1) MPI_Barrier(MPI_COMM_WORLD);   /* diagnostic option -b: every rank has registered the taskpool before any task is inserted */
     int stale[MAXD];
     for (d = 0; d < ND; d++) { tiles[d] = PARSEC_DTD_TILE_OF_KEY(A, d); stale[d] = 0; inflight[d] = 0; }
+    NTC = 0;
+    for (i = 0; i < NT; i++) if (T[i].body >= 100) make_tc(&T[i]);
+    patch_classes();
     stamp = 0;
     for (i = 0; i < NOPS; i++) {
         switch (OPS[i].kind) {
@@ -234,6 +283,8 @@ static void run_case(void) {
     rc = parsec_taskpool_wait(tp); PARSEC_CHECK_ERROR(rc, "taskpool_wait");
     wd_done = 1;
     if (have_wd) pthread_join(wd, NULL);
+    for (i = 0; i < NTC; i++) parsec_dtd_task_class_release(tp, TC[i].tc);
+    NTC = 0;
     { parsec_taskpool_t *t2 = tp; tp = NULL; parsec_taskpool_free(t2); }
     rc = parsec_context_wait(parsec); PARSEC_CHECK_ERROR(rc, "context_wait");
     for (d = 0; d < ND; d++) finalv[d] = ((int)A->rank_of_key(A, d) == my_rank) ? *owner_ptr(d) : 0;
